@@ -375,11 +375,66 @@ pub fn run(ctx: &Ctx) -> Outcome {
         }
     }
     eprintln!("[C08] byte-level: {} executions, {:.1}s", n_bytes, ctx.elapsed());
+    // (d) sweeps of the length-like octets inside payloads: for every frame type with optional leading fields (DATA,
+    // HEADERS, PUSH_PROMISE) x every combination of PADDED / PRIORITY / END_HEADERS x several payload lengths, every value
+    // 0..=255 of the Pad Length octet (all positions of "padding reaches into / past the other fields")
+    let mut n_sweep = 0u64;
+    {
+        let block = T2::block(&[(":method", "GET"), (":scheme", "http"), (":authority", "h.example"), (":path", "/s")]);
+        let mut jobs: Vec<(&'static str, u8, u8, usize, u8, bool)> = vec![];
+        for st in ["s-open", "c-request-open", "c-response-open"] {
+            for (ty, flagsets) in [(0u8, vec![0x8u8, 0x9]), (1, vec![0x8, 0x28, 0xc, 0x2c, 0x2d]), (5, vec![0x8, 0xc])] {
+                for fl in flagsets {
+                    for tail in [0usize, 1, 4, 5, 6, 11, 40] {
+                        for p in 0..=255u8 {
+                            jobs.push((st, ty, fl, tail, p, false));
+                            if tail == 5 {
+                                jobs.push((st, ty, fl, tail, p, true));
+                            }
+                        }
+                    }
+                }
+            }
+        }
+        let counter = AtomicU64::new(0);
+        par_for(jobs.len(), |j| {
+            if ctx.over_budget() {
+                return;
+            }
+            let (stn, ty, fl, tail, p, new_stream) = jobs[j];
+            let s = sts.iter().find(|s| s.name == stn).unwrap();
+            let (mut t, mut app, v) = prepared(s);
+            let sid = if new_stream { v.next_peer_id() } else { prim_of(s) };
+            // [Pad Length] [priority: 5 octets] [promised id: 4 octets] fragment / data, then `tail` further octets
+            let mut payload = vec![p];
+            if ty == 1 && fl & 0x20 != 0 {
+                payload.extend([0, 0, 0, 0, 15]);
+            }
+            if ty == 5 {
+                payload.extend([0, 0, 0, 2]);
+            }
+            if ty == 0 {
+                payload.extend([0xee; 3]);
+            } else {
+                payload.extend(&block);
+            }
+            payload.extend(std::iter::repeat(0).take(tail));
+            let f = RawFrame::new(ty, fl, sid, payload);
+            let key = format!("{}+sweep-t{}-fl{:#x}-tail{}-pad{}{}", s.name, ty, fl, tail, p, if new_stream { "-new" } else { "" });
+            let mut o = inject_and_judge(&mut t, &mut app, &Inject::Frames(vec![f.clone()]), false, false, &key);
+            close(t, app, &key, &mut o.vios);
+            counter.fetch_add(1, Ordering::Relaxed);
+            record(o, json!({"harness": "c08.frame", "state": s.name, "frame": hex(&f.encode()), "blocked": false, "app": false, "label": key}));
+        });
+        n_sweep = counter.load(Ordering::Relaxed);
+    }
+    eprintln!("[C08] pad-length sweeps: {} executions, {:.1}s", n_sweep, ctx.elapsed());
     let outcomes = outcomes.into_inner().unwrap();
     let n = execs.load(Ordering::Relaxed);
     out.harness("frame-catalogue", json!({"executions": n_catalogue, "states": sts.len(), "full_product": !quick}));
     out.harness("event-sequences", json!({"executions": n_seq, "length": if quick { 2 } else { 3 }}));
     out.harness("byte-level", json!({"executions": n_bytes}));
+    out.harness("pad-length-sweeps", json!({"executions": n_sweep}));
     out.set("evaluations", json!(n));
     out.set("states", json!(n));
     out.set("transitions", json!(transitions.load(Ordering::Relaxed)));
@@ -387,7 +442,7 @@ pub fn run(ctx: &Ctx) -> Outcome {
     out.set("distinct_nontrivial", json!(outcomes.len().max(2)));
     out.set("outcomes", json!(outcomes));
     out.set("exhaustive", json!(!ctx.over_budget()));
-    out.set("rule", json!("X3 on T2: the real endpoint (both roles) in each of 32 states receives (a) every frame of a systematic catalogue (type 0..10 x flags x declared/actual length x stream id x payload fill), also under write back-pressure and with concurrent application calls, (b) every sequence of 2 (quick) / 3 (thorough) events of the C09 catalogue, (c) handshakes and first frames cut at every offset and fed bytewise, and garbage prefaces. Oracle on every execution: no panic (also during teardown), the connection task quiesces within 300 polls, never wakes itself more than 8 times in a row without transport activity, polls + transport callbacks stay below a bound linear in the input, and the outcome is continued service, GOAWAY then close, or a surfaced I/O error"));
+    out.set("rule", json!("X3 on T2: the real endpoint (both roles) in each of 32 states receives (a) every frame of a systematic catalogue (type 0..10 x flags x declared/actual length x stream id x payload fill), also under write back-pressure and with concurrent application calls, (b) every sequence of 2 (quick) / 3 (thorough) events of the C09 catalogue, (c) handshakes and first frames cut at every offset and fed bytewise, and garbage prefaces, (d) every Pad Length value 0..=255 for DATA / HEADERS / PUSH_PROMISE with every combination of PADDED / PRIORITY / END_HEADERS and several payload lengths. Oracle on every execution: no panic (also during teardown), the connection task quiesces within 300 polls, never wakes itself more than 8 times in a row without transport activity, polls + transport callbacks stay below a bound linear in the input, and the outcome is continued service, GOAWAY then close, or a surfaced I/O error"));
     out.add_sample(json!({"harness": "c08.seq", "state": "s-open", "events": ["DATA(prim)", "RST_STREAM(prim)"]}));
     out.guard_nonzero("executions that kept serving", outcomes.get("serving").copied().unwrap_or(0));
     out.guard_nonzero("executions that ended with GOAWAY", outcomes.get("goaway").copied().unwrap_or(0));
